@@ -403,6 +403,8 @@ pub struct Runner {
     pub cur_built: bool,
     /// the real run does not have the structure the MODEL assumes (not by itself a failure of a property)
     pub mismatches: Vec<String>,
+    /// what `verify()` has to answer on the current (loaded) file: set by `expectverify`
+    pub expect_verify: Option<String>,
 }
 
 
@@ -545,6 +547,7 @@ impl Runner {
             groupings: Default::default(),
             cur_built: false,
             mismatches: vec![],
+            expect_verify: None,
         }
     }
 
@@ -651,6 +654,12 @@ impl Runner {
                 "expect ok".into()
             }
             "verify" => self.cmd_verify(),
+            "expectverify" => {
+                // files whose checksum status is known independently (golden files of earlier
+                // builds, reference-encoder output): `ok` or `missing`
+                self.expect_verify = Some(t[1].to_string());
+                format!("expectverify {}", t[1])
+            }
             "get" => self.cmd_get(&t),
             "has" => self.cmd_has(&t),
             "getkey" => self.cmd_getkey(&t),
@@ -777,6 +786,14 @@ impl Runner {
         let built_v3 = self.cur_built;
         let shown = format!("{:?}", r.as_ref().err());
         self.check(r.is_ok() || !built_v3, || format!("C08 a built FST does not pass verify(): {}", shown));
+        if let Some(want) = self.expect_verify.take() {
+            let got = match &r {
+                Ok(()) => "ok",
+                Err(fst::Error::Fst(raw::Error::ChecksumMissing)) => "missing",
+                _ => "mismatch",
+            };
+            self.check(got == want, || format!("C10 C08 verify() on a file written by an earlier build / the reference encoder answers {} (want {}): {}", got, want, shown));
+        }
         match r {
             Ok(()) => "verify ok".into(),
             Err(fst::Error::Fst(raw::Error::ChecksumMissing)) => {
